@@ -1,5 +1,7 @@
 use crate::{
-    operation::{Operation, OperationControl, RepeatOperation, MATCHES_ZLS_ANYWHERE},
+    operation::{
+        Operation, OperationControl, RepeatOperation, RestoreGroupsIterator, MATCHES_ZLS_ANYWHERE,
+    },
     re_flags::ReFlags,
     re_matcher::ReMatcher,
 };
@@ -64,16 +66,23 @@ impl OperationControl for ReluctantFixed {
 
     fn matches_iter<'a>(
         &'a self,
-        matcher: &'a ReMatcher,
+        matcher: &'a ReMatcher<'a>,
         position: usize,
     ) -> Box<dyn Iterator<Item = usize> + 'a> {
-        Box::new(ReluctantFixedIterator::new(
-            self.operation.as_ref(),
+        let saved = self
+            .contains_capturing_expressions()
+            .then(|| matcher.group_state());
+        RestoreGroupsIterator::wrap(
             matcher,
-            position,
-            self.min,
-            self.max,
-        ))
+            saved,
+            Box::new(ReluctantFixedIterator::new(
+                self.operation.as_ref(),
+                matcher,
+                position,
+                self.min,
+                self.max,
+            )),
+        )
     }
 
     fn children(&self) -> Vec<Operation> {
